@@ -97,6 +97,7 @@ PROPS["C03"] = dict(
         J("TestC03_Generated", 400, 5000, shards=12),
         J("TestC03_Subsets", 6, 6, shards=4),
         J("TestC03_Errors", 200, 5000, shards=1),
+        J("TestC03_StructuralPlusCancelling", 400, 6000, shards=4),
     ],
 )
 
